@@ -481,6 +481,15 @@ API_PROGRAMS = {
         "flow counter\n  match Tick()\n  $v = await CountAction(step=2)\n  send Count(v=$v[\"n\"], tags=$v[\"tags\"])\n",
         ["Tick", "Tick", "X", "Tick"],
     ),
+    # the library's own questions about flows ("is there a flow with this id?"), asked about a flow whose only instance finished
+    # long ago: the answer must not depend on whether the finished instance has been discarded meanwhile
+    "ask-about-finished-flow": (
+        "flow main\n  activate asker\n  match Go()\n  await helper\n  send Done()\n  match Never()\n\n"
+        "flow helper\n  send HelperRan()\n\n"
+        "flow asker\n  match Check()\n  $e = await CheckValidFlowExistsAction(flow_id=\"helper\")\n  $d = await CheckFlowDefinedAction(flow_id=\"helper\")\n"
+        "  $u = await CheckValidFlowExistsAction(flow_id=\"unknown flow\")\n  send Result(exists=$e, defined=$d, unknown=$u)\n",
+        ["Check", "Go", "X", "Check", "X", "Check"],
+    ),
 }
 TAUGHT = {
     "a": "flow taught a\n  send Bonjour()\n  match Merci()\n  send DeRien()\n",
@@ -518,6 +527,12 @@ def run_api(case):
 
         rt.register_action(fetch_source, "FetchSourceAction")
         rt.register_action(count, "CountAction")
+        # the library's flow-inspection actions, as LLMRails registers them (the methods use no instance state: no LLM, no index)
+        from nemoguardrails.actions.v2_x.generation import LLMGenerationActionsV2dotx
+
+        gen = object.__new__(LLMGenerationActionsV2dotx)
+        rt.register_action(gen.check_if_flow_exists, "CheckValidFlowExistsAction")
+        rt.register_action(gen.check_if_flow_defined, "CheckFlowDefinedAction")
         return rt
 
     async def play(cut, age):
